@@ -21,7 +21,10 @@ E(d) == IF d = 0 THEN Leaves
 Init == t \in E(Depth)
 Next == UNCHANGED t
 
-Emit == PrintT(<<"REPLAY", ToJson([rust |-> t, abs |-> Abs(t)])>>)
+\* every tree is generated under each configuration: no mapping / a mapping of the user type / a Swift-Kotlin prefix /
+\* prefix AND mapping together (the mapped name is used exactly as configured: TypeExpr!Conf never prefixes it)
+Configs == {"base", "mapped", "prefixed", "prefixed_mapped"}
+Emit == PrintT(<<"REPLAY", ToJson([rust |-> t, abs |-> Abs(t), configs |-> Configs])>>)
 
 \* theorems about the specification itself
 Wrap(c, x) == [k |-> c, e |-> x]
